@@ -354,6 +354,10 @@ func (ex *Exec) selectOp(fr *frame, in *ssa.Select) Value {
 	// all ready ones when more than one)
 	type rc struct{ i int }
 	var ready []int
+	if in.Blocking {
+		// a blocking point: queued goroutines run first (they may make a case ready)
+		ex.runPendingGoroutines()
+	}
 	for i, s := range in.States {
 		c := ex.get(fr, s.Chan).(*ChanObj)
 		if c == nil {
